@@ -29,6 +29,7 @@ func init() {
 			"then decoded by the in-memory decoder (as buffer.get drives it) and by the streaming decoder with tails {none,00,ff,80}: value, bytes advanced and bytes drawn from a counting reader must be exact; " +
 			"(b) every byte string up to the tier's length given as the whole data / whole stream: both decoders must agree with a 12-line reference decoder on value or rejection; " +
 			"(c) the same codec at its public use sites: Subscribe.SetSubscriptionID round trips for every value whose four 7-bit groups come from {0,1,2,3,3f,40,41,7e,7f} (6560 values); subscription identifiers carried by a PUBLISH (packed 128 per packet, written through the API, read by the specification decoder for value and minimal form, read back by ReadPacket) for every value below 2^24 (thorough: all 2^28); remaining length of a PUBLISH written and read back for every value 4..20000 (thorough ..70000 and 2^21+-300); " +
+			"(e) every byte string of (b) also as the remaining-length field of a real stream (first byte, field, announced body): ReadPacket must reject what the reference rejects and consume exactly the frame of a minimal field (values up to 70 000); " +
 			"(d) the streaming decoder fed through buffering readers (bufio 16/4096/pre-filled, own type with Peek/Discard, LimitedReader) whose source hands over 1..4 bytes per Read, so that the buffer ends inside the integer: the group values and every byte string of length <= 2 (thorough 3) with each tail; " +
 			"distinct_nontrivial counts distinct (value) cases with a multi-byte encoding plus distinct byte strings that contain at least one continuation byte.",
 		Assumptions: []string{
@@ -214,6 +215,14 @@ func runC15(x *core.Ctx) {
 		var f *core.Finding
 		if guarded(0, func() { f = c15StringRaw(b) }).Panic != "" {
 			f = c15String(b)
+		}
+		if f == nil && len(b) > 0 && (len(b) >= 4 || len(b) <= 2 || b[0]&0x0f == 0 || b[0] >= 0xf0) {
+			// in situ (three-byte fields: a sixth of them, all others: all)
+			if g := c15InSitu(b); g != nil {
+				bb := append([]byte{}, b...)
+				x.Report(g, func() core.Case { return core.Case{Harness: "c15.insitu", Frame: hexOf(bb)} },
+					func() *core.Finding { return c15InSitu(bb) })
+			}
 		}
 		if f != nil {
 			bb := append([]byte{}, b...)
@@ -429,6 +438,22 @@ func c15APIcase(v uint32) *core.Finding {
 	if sq, ok := q.(*mq.Subscribe); !ok || sq.SubscriptionID() != int(v) {
 		return &core.Finding{Class: "api-subid-roundtrip", Detail: fmt.Sprintf("subscription id %d read back as %v", v, q)}
 	}
+	// the in-memory decoder writing into a destination that already holds a
+	// value (a SUBSCRIBE reused as decode destination): exactly the decoded
+	// value, not a blend with the old one
+	_, hn, _ := spec.ReadVarint(b[1:])
+	for _, old := range []int{1, 268435455, 0x5555555, 0x2aaaaaa} {
+		d := mq.NewSubscribe()
+		d.SetSubscriptionID(old)
+		var uerr error
+		res := guarded(stepBudget(len(b)), func() { uerr = d.UnmarshalBinary(append([]byte(nil), b[1+hn:]...)) })
+		if res.Panic != "" || res.Budget || uerr != nil {
+			return &core.Finding{Class: "api-subid-reused-destination", Detail: fmt.Sprintf("UnmarshalBinary into a SUBSCRIBE holding identifier %d: %v %s", old, uerr, res.Panic)}
+		}
+		if d.SubscriptionID() != int(v) {
+			return &core.Finding{Class: "api-subid-reused-destination", Detail: fmt.Sprintf("subscription identifier %d decoded into a SUBSCRIBE that held %d reads %d", v, old, d.SubscriptionID())}
+		}
+	}
 	return nil
 }
 
@@ -505,6 +530,47 @@ func c15Kinds(b []byte, tail []byte, kind env.Kind, k int) *core.Finding {
 	}
 	if used != wn {
 		return mk("position", fmt.Sprintf("the logical stream is at offset %d afterwards, the integer has %d bytes", used, wn))
+	}
+	return nil
+}
+
+// c15InSitu: b as the remaining-length field of a real stream: a PINGREQ
+// first byte, b, and as many body bytes as b announces. ReadPacket must
+// reject what the reference rejects and, for minimal encodings, accept and
+// consume exactly the frame (a decoder may read the length field with code
+// of its own rather than with the hooked decoder).
+func c15InSitu(b []byte) *core.Finding {
+	wv, wn, wok := refDecode(b)
+	if wok && wv > 70000 {
+		return nil // bodies of megabytes per case are left to the ladder checks
+	}
+	stream := append([]byte{0xc0}, b...)
+	if wok {
+		stream = append(append([]byte{0xc0}, b[:wn]...), make([]byte, wv)...)
+	}
+	stream = append(stream, 0xd0) // the first byte of what follows
+	rd := &env.Reader{Data: stream}
+	p, err, res := readPacket(rd, stepBudget(len(stream)))
+	mk := func(class, what string) *core.Finding {
+		return &core.Finding{Class: "in-situ/" + class, Detail: fmt.Sprintf("remaining-length field % x on a stream: %s", b, what)}
+	}
+	if res.Panic != "" {
+		return mk("panic", res.Panic)
+	}
+	if !wok {
+		if err == nil || p != nil {
+			return mk("accepted", fmt.Sprintf("ReadPacket returned %v; the reference rejects the field", p))
+		}
+		return nil
+	}
+	if !bytes.Equal(refEncode(wv), b[:wn]) {
+		return nil // non-minimal: acceptance is not demanded
+	}
+	if err != nil || p == nil {
+		return mk("rejected", fmt.Sprintf("ReadPacket rejects a minimal field of value %d: %v", wv, err))
+	}
+	if rd.Off != 1+wn+int(wv) {
+		return mk("consumed", fmt.Sprintf("value %d: %d bytes drawn, the frame has %d", wv, rd.Off, 1+wn+int(wv)))
 	}
 	return nil
 }
@@ -669,6 +735,8 @@ func replayC15(c core.Case) *core.Finding {
 			l = append(l, first+uint32(i))
 		}
 		return c15Publish(l)
+	case "c15.insitu":
+		return c15InSitu(unhex(c.Frame))
 	case "c15.kinds":
 		return c15Kinds(unhex(c.Frame), unhex(paramStr(c.Params, "tail")), env.Kind(paramInt(c.Params, "kind")), paramInt(c.Params, "k"))
 	}
